@@ -72,9 +72,16 @@ def mapM' {α β} (f : α → R β) : List α → R (List β)
   | [] => .ok []
   | a :: as => do let b ← f a; let bs ← mapM' f as; pure (b :: bs)
 
-def parsePath (p : Bytes) : R Bytes := do
-  let segs ← mapM' (fun s => do let t ← unquoteText s; pure (protectSlash t)) (splitOn1 0x2F p)
-  pure (joinWith [0x2F] segs)
+/-- one path segment: percent-decode, then protect a decoded slash -/
+def parseSeg (s : Bytes) : R Bytes :=
+  match unquoteText s with
+  | .error e => .error e
+  | .ok t => .ok (protectSlash t)
+
+def parsePath (p : Bytes) : R Bytes :=
+  match mapM' parseSeg (splitOn1 0x2F p) with
+  | .error e => .error e
+  | .ok segs => .ok (joinWith [0x2F] segs)
 
 /-- `all(x.isdigit() for x in host.split(b'.'))` -/
 def looksIPv4 (h : Bytes) : Bool := (splitOn1 0x2E h).all fun p => !p.isEmpty && p.all isDigit
@@ -137,44 +144,67 @@ structure Env where
   hostSafe : Byte → Bool      -- UNRESERVED + SUB_DELIMS
   querySafe : Byte → Bool     -- QueryString.UNQUOTED
 
-/-- `URI.parse(uri)` on an object whose class is `cls0` (`none` = plain `URI`). -/
-def parse (E : Env) (cls0 : Option (Bytes × Nat)) (uri : Bytes) : R Uri := do
-  -- early class switch on the text before the first ':'
-  let cls1 := if cls0.isNone && uri.contains 0x3A then
-      match splitOnce [0x3A] uri with
-      | some (pre, _) => if pre.isEmpty then cls0 else lookupScheme E.schemes (lowerBytes pre)
-      | none => cls0
-    else cls0
-  if !uri.all isPrintable then throw .invalidURI
-  let (uri, fragment) := match splitOnce [0x23] uri with | some (a, b) => (a, b) | none => (uri, [])
-  let (uri, query) := match splitOnce [0x3F] uri with | some (a, b) => (a, b) | none => (uri, [])
-  -- `uri.partition(b'://')` (first occurrence, since the F32 repair)
-  let (scheme, authExists, uri) := match splitOnce [0x3A, 0x2F, 0x2F] uri with
+/-- `a, _, b = s.partition(sep)`: `(s, b'')` when the separator is absent -/
+def partitionAt (sep s : Bytes) : Bytes × Bytes :=
+  match splitOnce sep s with | some (a, b) => (a, b) | none => (s, [])
+
+/-- `a, _, b = s.rpartition(sep)`: `(b'', s)` when the separator is absent -/
+def rpartitionAt (sep s : Bytes) : Bytes × Bytes :=
+  match rsplitOnce sep s with | some (a, b) => (a, b) | none => ([], s)
+
+/-- the class switch of `type(self) is URI and b':' in uri` at the start of `parse` -/
+def earlyClass (E : Env) (cls0 : Option (Bytes × Nat)) (uri : Bytes) : Option (Bytes × Nat) :=
+  if cls0.isNone && uri.contains 0x3A then
+    match splitOnce [0x3A] uri with
+    | some (pre, _) => if pre.isEmpty then cls0 else lookupScheme E.schemes (lowerBytes pre)
+    | none => cls0
+  else cls0
+
+/-- scheme / authority / rest: `partition(b'://')`, the `//` prefix, the `scheme:` prefix -/
+def cutScheme (uri : Bytes) : Bytes × Bool × Bytes :=
+  let r1 : Bytes × Bool × Bytes := match splitOnce [0x3A, 0x2F, 0x2F] uri with
     | some (a, b) => (a, true, b)
     | none => ([], false, uri)
-  let (authExists, uri) := if !authExists && startsWith uri [0x2F, 0x2F] then (true, uri.drop 2) else (authExists, uri)
-  let (scheme, uri) := if !authExists && uri.contains 0x3A then
-      match splitOnce [0x3A] uri with | some (a, b) => (a, b) | none => (scheme, uri)
-    else (scheme, uri)
-  let (authority, path) := if authExists then
-      match splitOnce [0x2F] uri with | some (a, b) => (a, 0x2F :: b) | none => (uri, [])
-    else ([], uri)
-  let (userinfo, hostport) := match rsplitOnce [0x40] authority with | some (a, b) => (a, b) | none => ([], authority)
-  let (username, password) := match splitOnce [0x3A] userinfo with | some (a, b) => (a, b) | none => (userinfo, [])
-  let (host, port) := if hostport.contains 0x3A && !endsWith hostport [0x5D] then
-      match rsplitOnce [0x3A] hostport with | some (a, b) => (a, b) | none => (hostport, [])
-    else (hostport, [])
-  let path ← parsePath path
-  let scheme := lowerBytes scheme
+  let r2 : Bytes × Bool × Bytes :=
+    if !r1.2.1 && startsWith r1.2.2 [0x2F, 0x2F] then (r1.1, true, r1.2.2.drop 2) else r1
+  if !r2.2.1 && r2.2.2.contains 0x3A then
+    match splitOnce [0x3A] r2.2.2 with | some (a, b) => (a, false, b) | none => r2
+  else r2
+
+/-- authority and path -/
+def cutAuthority (authExists : Bool) (uri : Bytes) : Bytes × Bytes :=
+  if authExists then
+    match splitOnce [0x2F] uri with | some (a, b) => (a, 0x2F :: b) | none => (uri, [])
+  else ([], uri)
+
+/-- host and port text of `hostport` -/
+def cutHostPort (hostport : Bytes) : Bytes × Bytes :=
+  if hostport.contains 0x3A && !endsWith hostport [0x5D] then
+    match rsplitOnce [0x3A] hostport with | some (a, b) => (a, b) | none => (hostport, [])
+  else (hostport, [])
+
+/-- `URI.parse(uri)` on an object whose class is `cls0` (`none` = plain `URI`). -/
+def parse (E : Env) (cls0 : Option (Bytes × Nat)) (uri : Bytes) : R Uri := do
+  let cls1 := earlyClass E cls0 uri
+  if !uri.all isPrintable then throw .invalidURI
+  let f := partitionAt [0x23] uri          -- (rest, fragment)
+  let q := partitionAt [0x3F] f.1          -- (rest, query)
+  let sc := cutScheme q.1                  -- (scheme, authority?, rest)
+  let ap := cutAuthority sc.2.1 sc.2.2     -- (authority, path)
+  let uh := rpartitionAt [0x40] ap.1       -- (userinfo, hostport)
+  let up := partitionAt [0x3A] uh.1        -- (username, password)
+  let hp := cutHostPort uh.2               -- (host, port)
+  let path ← parsePath ap.2
+  let scheme := lowerBytes sc.1
   if !scheme.all isSchemeChar then throw .invalidURI
-  let query ← if query.isEmpty then pure [] else requery E.querySafe query
-  let username ← unquoteText username
-  let password ← unquoteText password
-  let host ← unquoteHost E.hostSafe host
-  let fragment ← unquoteText fragment
+  let query ← if q.2.isEmpty then pure [] else requery E.querySafe q.2
+  let username ← unquoteText up.1
+  let password ← unquoteText up.2
+  let host ← unquoteHost E.hostSafe hp.1
+  let fragment ← unquoteText f.2
   let u := setScheme E.schemes { cls := cls1 } scheme
   let u := { u with username := username, password := password, host := host }
-  let u ← setPortBytes u port
+  let u ← setPortBytes u hp.2
   pure { u with path := path, query := query, fragment := fragment }
 
 /-! ### abspath / normalize -/
